@@ -85,17 +85,18 @@ Qed.
 
 Lemma apply_gop_inv w k g : Forall OInv (w_objs w) -> Forall OInv (w_objs (apply_gop w k g)).
 Proof.
-  intros F. destruct g as [p rep|f tag id|tag j v]; cbn [apply_gop].
+  intros F. destruct g as [p rep|f tag id|tag j v|]; cbn [apply_gop].
   - destruct p; cbn [w_objs with_objs]; apply Forall_upd_nth; auto; intros x Hx;
       try (now apply OInv_obj_step). now apply OInv_obj_step_n.
   - destruct (nth_error _ _); [|exact F]. cbn [w_objs with_objs]. apply Forall_upd_nth; auto.
     intros x Hx. now apply OInv_obj_step.
   - cbn [w_objs]. rewrite Forall_forall in *. intros o Ho. apply in_map_iff in Ho as (o' & <- & Ho').
     apply OInv_mut. now apply F.
+  - cbn [w_objs with_objs]. apply Forall_upd_nth; auto.
 Qed.
 Lemma apply_gop_exp w k g : w_exp (apply_gop w k g) = w_exp w.
 Proof.
-  destruct g as [p rep|f tag id|tag j v]; cbn [apply_gop]; try reflexivity.
+  destruct g as [p rep|f tag id|tag j v|]; cbn [apply_gop]; try reflexivity.
   - destruct p; reflexivity.
   - destruct (nth_error _ _); reflexivity.
 Qed.
